@@ -11,10 +11,12 @@ def sh(cmd, **kw):
 def main():
     prop, work = sys.argv[1], sys.argv[2]
     tier = "quick"
+    label = ""
     checks = [prop]
     for i, a in enumerate(sys.argv):
         if a == "--tier": tier = sys.argv[i + 1]
         if a == "--checks": checks = sys.argv[i + 1].split(",")
+        if a == "--label": label = sys.argv[i + 1] + "-"
     assert sh("git -C /repo status --porcelain").stdout.strip() == "", "/repo not clean"
     for m in sorted(d for d in os.listdir(work) if d.startswith("m") and os.path.isdir(os.path.join(work, d))):
         d = os.path.join(work, m)
@@ -40,13 +42,13 @@ def main():
             sh("git -C /repo checkout -- .")
         confirmed = ("12 failed, 187 passed" in suite) and base_demo.returncode == 0 and mut_demo.returncode != 0
         caught = any(v["exit"] == 1 for v in results.values())
-        out = os.path.join("/verif/seeded", f"{prop}-{m}")
+        out = os.path.join("/verif/seeded", f"{prop}-{label}{m}")
         os.makedirs(out, exist_ok=True)
         for f in ("patch.diff", "demo.py", "note.txt"):
             if os.path.exists(os.path.join(d, f)):
                 shutil.copy(os.path.join(d, f), os.path.join(out, f))
         note = open(os.path.join(d, "note.txt")).read() if os.path.exists(os.path.join(d, "note.txt")) else ""
-        meta = {"property": prop, "id": f"{prop}-{m}", "needs_to_manifest": note.strip(),
+        meta = {"property": prop, "id": f"{prop}-{label}{m}", "needs_to_manifest": note.strip(),
                 "confirmed": confirmed, "suite_with_change": suite, "demo_on_clean_tree_exit": base_demo.returncode,
                 "demo_with_change_exit": mut_demo.returncode,
                 "what_was_run": f"git -C /repo apply patch.diff; pytest suite; demo.py; ./check {' '.join(checks)} --tier {tier}; git -C /repo checkout -- .",
